@@ -82,6 +82,10 @@ static const Scenario kScenarios[] = {
             "s1 s2 s3", "top", { { NULL } } },
   /* 35 */ { "restat_consumer", { RULES "build mid: gen s\nbuild out: cc mid s2\n", NULL, NULL },
             "s s2", "out", { { "mid", "", KEEP_IF_SAME | HALVE, NULL }, { NULL } } },
+  /* 36 */ { "include_switch", { RULES "build a.o: gend a.c\nbuild b.o: ccd b.c\nbuild all: phony a.o b.o\n", NULL, NULL },
+            "a.c b.c eq1.h eq2.h common.h", "all", { { "a.o", "eq1.h|eq2.h common.h", KEEP_IF_SAME | HALVE, NULL }, { "b.o", "eq2.h common.h", 0, NULL }, { NULL } } },
+  /* 37 */ { "dyndep_checked_in", { RULES "build out: cc in || dd\n  dyndep = dd\nbuild x: cc out.imp || out\nbuild y: cc s2\n", NULL, NULL },
+            "in dd s2", "x y", { { "dd", "", 0, "ninja_dyndep_version = 1\nbuild out | out.imp: dyndep\n" }, { NULL } } },
 };
 #ifndef SCENARIO
 #define SCENARIO 0
